@@ -49,12 +49,14 @@ open YaegiVerif.Build
 def known : Known :=
   { os := %s,
     arch := %s }
+/-- interp/build.go: unixOs (sorted keys) -/
+def unixOs : List String := %s
 /-- fingerprints of the functions that Model/Build.lean transcribes -/
 def sourceHashes : List (String × String) :=
   %s
 end YaegiVerif.Generated.C17
-`, common.LeanStrList(keys("knownOs")), common.LeanStrList(keys("knownArch")),
+`, common.LeanStrList(keys("knownOs")), common.LeanStrList(keys("knownArch")), common.LeanStrList(keys("unixOs")),
 			common.HashTable(fset, f, [][2]string{{"Interpreter", "buildOk"}, {"", "buildLineOk"}, {"", "buildOptionOk"},
-				{"", "buildTagOk"}, {"", "goMinorVersion"}, {"", "contains"}, {"", "skipFile"}, {"", "matchOsArch"}})), nil
+				{"", "buildTagOk"}, {"", "goMinorVersion"}, {"", "contains"}, {"", "skipFile"}, {"", "matchTag"}, {"", "isValidTag"}})), nil
 	})
 }
